@@ -67,6 +67,21 @@ def dup_parked(rng, ident):
     return scn.line("scn", ident, s, extra="nt=1 family=duplicate-reply-parked-while-caller-returns")
 
 
+def held_lists(rng, ident):
+    """results that are lists the caller goes on holding: later calls of the same shape on the same transport (shorter,
+    equal, longer lists; compressed or not is C06's) must not reach into a list that was handed out earlier"""
+    import mp
+    s = []
+    k = 2 + rng.below(3)
+    n0 = 3 + rng.below(4)
+    for i in range(1, k + 1):
+        n = n0 if i == 1 else rng.choice([1, n0 - 1, n0, n0 + 2])
+        res = [("s", b"r%d-%d" % (i, j)) for j in range(n)]
+        s += ["callslice/c%d/%s/%s" % (i, scn.M.hex(), scn.T(scn.arg(i))), "replyto/%d/%s" % (i, mp.vtext(res)), "await/c%d" % i, "settle"]
+    s += ["sleep/2", "sample/end"]
+    return scn.line("scn", ident, s, extra="nt=1 family=held-list-results")
+
+
 def normal(rng, ident):
     s = []
     n = 1 + rng.below(3)
@@ -95,6 +110,8 @@ def explore(ctx):
             lines.append(late(rng, "l%d" % n)); n += 1
         for _ in range({"quick": 20, "thorough": 200, "search": 40}[tier]):
             lines.append(normal(rng, "n%d" % n)); n += 1
+        for _ in range({"quick": 8, "thorough": 100, "search": 20}[tier]):
+            lines.append(held_lists(rng, "h%d" % n)); n += 1
         for _ in range({"quick": 3, "thorough": 30, "search": 6}[tier]):
             lines.append(dup_parked(rng, "d%d" % n)); n += 1
         for _ in range({"quick": 6, "thorough": 60, "search": 12}[tier]):
